@@ -71,6 +71,9 @@ def configs(c):
         edges = [[parts[k % len(parts)], parts[(k + 1) % len(parts)]] for k in range(c["edges"])]
         hcfg = {"confmaps": dict(cm, part_names=parts),
                 "pafs": {"edges": edges, "sigma": 4.0, "output_stride": c["hs"][1], "loss_weight": 1.0}}
+        if c.get("id", 0) % 2 == 1:
+            # the two sections of a bottom-up head configuration in the other order (a mapping has no order; seed C14_r12)
+            hcfg = {"pafs": hcfg["pafs"], "confmaps": hcfg["confmaps"]}
     return OmegaConf.create(bcfg), OmegaConf.create(hcfg)
 
 
